@@ -105,7 +105,7 @@ Definition add_entry (pb : propbuf) (fbr : res fragbuf) (e : cell * property) : 
   end.
 (** [From<PropertyBuffer> for FragmentBuffer], entries taken in the given order *)
 Definition fragbuf_of_entries (pb : propbuf) (order : propbuf) : res fragbuf :=
-  fold_left (add_entry pb) order (Ok []).
+  fold_left (add_entry pb) order (@Ok fragbuf []).
 
 (** [From<Span> for PropertyBuffer] *)
 Definition propbuf_of_span (s : span) : propbuf :=
